@@ -117,8 +117,55 @@ func pathEq(a, b []int64) bool {
 // R01: component-wise conversions in intgeom are index-aligned: element k of
 // the result is built from element k of the source (deviance from the sibling
 // conversions = a bug).
+// r01OrdinateCodec: in package intgeom an integer ordinate becomes a float (and back) only inside the scaling codec
+// ToGeomOrd / FromGeomOrd.  A raw float64(ordinate) or int64(float) elsewhere skips the 10^Precision scaling: the
+// float intersection of two segments is then computed on numbers of ~1e15 whose products do not fit a float64
+// mantissa, and truncating the result loses the exact equality the pixel border rules rely on.
+func r01OrdinateCodec(c *core.Ctx) {
+	const R = "R01"
+	pk := c.P.PkgShort("intgeom")
+	if pk == nil {
+		return
+	}
+	n := 0
+	bad := ""
+	for _, f := range sortedFuncs(c.P) {
+		if f.Pkg != pk || f.SSA == nil {
+			continue
+		}
+		for _, fn := range core.AllSSAFuncs(f.SSA) {
+			for _, b := range fn.Blocks {
+				for _, in := range b.Instrs {
+					cv, ok := in.(*ssa.Convert)
+					if !ok {
+						continue
+					}
+					src, ok1 := cv.X.Type().Underlying().(*types.Basic)
+					dst, ok2 := cv.Type().Underlying().(*types.Basic)
+					if !ok1 || !ok2 {
+						continue
+					}
+					intToFloat := src.Info()&types.IsInteger != 0 && dst.Info()&types.IsFloat != 0 && src.Kind() == types.Int64
+					floatToInt := src.Info()&types.IsFloat != 0 && dst.Info()&types.IsInteger != 0 && dst.Kind() == types.Int64
+					if !intToFloat && !floatToInt {
+						continue
+					}
+					n++
+					name := f.Decl.Name.Name
+					if (intToFloat && name == "ToGeomOrd") || (floatToInt && name == "FromGeomOrd") {
+						continue
+					}
+					bad += fmt.Sprintf("%s @%s; ", f.Name, c.P.Pos(cv.Pos()))
+				}
+			}
+		}
+	}
+	c.Check(R, "ordinate-conversions-only-in-codec/intgeom", token.NoPos, bad == "" && n >= 2, fmt.Sprintf("%d int64<->float64 conversions in package intgeom, all inside ToGeomOrd / FromGeomOrd", n), "an integer ordinate is converted to or from float64 outside the scaling codec ToGeomOrd/FromGeomOrd: "+bad)
+}
+
 func r01IndexAligned(c *core.Ctx) {
 	const R = "R01"
+	r01OrdinateCodec(c)
 	pk := c.P.PkgShort("intgeom")
 	if pk == nil {
 		c.Bad(R, "anchor/intgeom", token.NoPos, "reason=anchor-unresolved: package intgeom not found")
